@@ -692,9 +692,22 @@ def short(fq):
     return fq.split(':')[1]
 
 
+def _fragment_anchor(ctx):
+    """fragment() itself (after reading helpers through) calls the three series builders: every rule below that speaks
+    about fragment() reads them there.  When the calls sit in a worker that could not be read through, those rules have
+    nothing to judge -- not read, rather than a string of verdicts about an empty function."""
+    fr = ctx.program.func(f'{FR}:fragment')
+    called = {n.func.id for n in walk_own(fr.node) if isinstance(n, ast.Call) and isinstance(n.func, ast.Name)}
+    missing = {'_get_terminal_fragments', '_get_internal_fragments', '_get_immonium_fragments'} - called
+    if missing:
+        raise AnalysisError(f'fragment(): call of {sorted(missing)[0]} not found (the series builders are not called from '
+                            f'fragment() in a form that is read)')
+
+
 def check(ctx, rep):
     rep.explanation = EXPLANATION
     an, program = ctx.analyzer, ctx.program
+    _fragment_anchor(ctx)
     projections(ctx, rep, 'C04a')
     loss_combinations(ctx, rep, 'C04a')
     loss_sequence(ctx, rep, 'C04a')
